@@ -526,8 +526,9 @@ var mwContents = []string{"", "1", "12", "123", "1234", "ééééé"}
 // +-292 years at which time.Duration saturates, year 1 (the zero of
 // time.Time's internal seconds), the 32- and 53-bit edges, and the largest
 // second time.Unix represents without wrapping its internal offset
-// (MaxInt64-62135596800; beyond it time.Unix wraps into the remote past: see
-// the assumptions of the property).  None of them is within years of a limit.
+// (MaxInt64-62135596800; beyond it time.Unix wraps into the remote past, which
+// the limit middlewares no longer go through since the repair of F12), and the
+// seconds beyond it up to MaxInt64.  None of them is within years of a limit.
 type mwTS struct {
 	Org string
 	DTS int64
@@ -546,6 +547,8 @@ var mwExtremeTS = []mwTS{
 	{"", 9223372036 - 60}, {"", 9223372036 + 60},
 	{"epoch", 1 << 53}, {"epoch", 1 << 62},
 	{"epoch", math.MaxInt64 - mwUnixToInternal - 1}, {"epoch", math.MaxInt64 - mwUnixToInternal},
+	// beyond the largest second time.Unix represents (defect F12, repaired: the limits saturate)
+	{"epoch", math.MaxInt64 - mwUnixToInternal + 1}, {"epoch", math.MaxInt64 - 1}, {"epoch", math.MaxInt64},
 }
 
 type mwGen struct {
